@@ -221,8 +221,9 @@ def run(ctx):
         ctx.check(not extra and lq.cfg.in_loop(c.b), "loader", "filter|" + str(s), c.loc(), "%s insertion conditioned only on status == Active and the order's side" % s,
                   "%s insertion additionally conditioned on %s" % (s, c.gtext()))
     if m.f_stamp:
-        from .c05 import run as _c05  # noqa: F401  (stamp restoration is C05's loader rule)
-        ctx.note("restoration of the stamp counter is checked under C05 (loader rules)")
+        # a counter restored too low makes the reloaded book queue later orders AHEAD of stored ones
+        from .c05 import loader_counter_rules
+        loader_counter_rules(ctx, m, loaders)
 
     # ------------------------------------------------------------ save / load siblings
     def shape(f):
